@@ -68,10 +68,9 @@ private theorem toXR_eq_nan (o : Option Rat) : toXR o = nan ↔ o = none := by
 /-! ### accumulate
 
 `scipy.signal.convolve(…, "valid", method="direct")` enters the model with its documented meaning
-(the direct sum over the window).  One recorded defect remains outside these statements
-(known_findings.txt): `accumulateFile` is `none` ("the script stops") when obs or fcst is absent —
-the code has no guard and crashes there (`accumulate-absent-field`).  All statements below are
-about files with both fields.
+(the direct sum over the window).  A file that holds only obs or only fcst is inside these
+statements: the field that is present is accumulated, the absent one stays absent
+(`C20_accumulate_file`).
 -/
 
 /-- **accumulate -w w** (every w ≥ 1, including `-w 1`) on a series of any length n ≥ w: the script does not stop, the
@@ -927,6 +926,66 @@ theorem C20_expand_times (itimes : List Int) (inits : List Rat) (x : Rat) :
 
 /-! ### what the scripts leave alone -/
 
+/-- **accumulate on a file, any combination of fields**: whenever the script finishes, each of obs and
+fcst is absent in the output iff it is absent in the input, and a field that is present is the
+accumulation (`accumulate3`, characterised by `C20_accumulate_axis`) of the input field; all other
+content is copied.  No hypothesis that both fields are present. -/
+theorem C20_accumulate_file (axis : Axis) (w : Option Nat) (ign : Bool) (f g : VFile)
+    (h : accumulateFile axis w ign f = some g) :
+    ((f.obs = none → g.obs = none) ∧
+      ∀ a, f.obs = some a → ∃ b, g.obs = some b ∧ accumulate3 axis w ign a = some b) ∧
+    ((f.fcst = none → g.fcst = none) ∧
+      ∀ a, f.fcst = some a → ∃ b, g.fcst = some b ∧ accumulate3 axis w ign a = some b) ∧
+    g.name = f.name ∧ g.units = f.units ∧ g.times = f.times ∧ g.leads = f.leads ∧ g.ids = f.ids
+      ∧ g.lats = f.lats ∧ g.lons = f.lons ∧ g.elevs = f.elevs := by
+  have key : ∀ (x : Option Arr3) (y : Option Arr3), accumulateField axis w ign x = some y →
+      (x = none → y = none) ∧ ∀ a, x = some a → ∃ b, y = some b ∧ accumulate3 axis w ign a = some b := by
+    intro x y hxy
+    cases x with
+    | none => simp [accumulateField] at hxy; simp [← hxy]
+    | some a =>
+      simp only [accumulateField, Option.map_eq_some_iff] at hxy
+      obtain ⟨b, hb, rfl⟩ := hxy
+      exact ⟨by simp, fun a' ha' => ⟨b, rfl, by cases ha'; exact hb⟩⟩
+  unfold accumulateFile at h
+  split at h
+  · rename_i o' fc' ho' hf'
+    cases h
+    exact ⟨key _ _ ho', key _ _ hf', rfl, rfl, rfl, rfl, rfl, rfl, rfl, rfl⟩
+  · cases h
+
+/-- the length of the accumulation axis of a field -/
+def axisLen : Axis → Arr3 → Nat
+  | .leadtime, a => a.L
+  | .time, a => a.T
+
+/-- the script finishes on a file without fcst (and without obs) whenever the window fits; the recorded
+witness `acc leadtime 2 0 … obs=1,2,3 fcst=none`, which used to crash, gives obs = nan,3,5 and no fcst -/
+theorem C20_accumulate_file_total (axis : Axis) (w : Option Nat) (ign : Bool) (f : VFile)
+    (ho : ∀ a, f.obs = some a → windowTooLong w (axisLen axis a) = false)
+    (hf : ∀ a, f.fcst = some a → windowTooLong w (axisLen axis a) = false) :
+    ∃ g, accumulateFile axis w ign f = some g := by
+  have key : ∀ (x : Option Arr3),
+      (∀ a, x = some a → windowTooLong w (axisLen axis a) = false) →
+      ∃ y, accumulateField axis w ign x = some y := by
+    intro x hx
+    cases x with
+    | none => exact ⟨none, rfl⟩
+    | some a =>
+      have := hx a rfl
+      cases axis <;> simp_all [accumulateField, accumulate3, axisLen]
+  obtain ⟨o', ho'⟩ := key f.obs ho
+  obtain ⟨fc', hf'⟩ := key f.fcst hf
+  exact ⟨{ f with obs := o', fcst := fc' }, by simp [accumulateFile, ho', hf']⟩
+
+example :
+    let f : VFile := ⟨"T", "K", [0], [0, 1, 2], [fin 1], [fin 0], [fin 0], [fin 0],
+      some ⟨1, 3, 1, fun _ l _ => [fin 1, fin 2, fin 3].getD l nan⟩, none, 0, fun _ _ _ _ => nan⟩
+    ∃ g, accumulateFile .leadtime (some 2) false f = some g ∧ g.fcst = none ∧
+      ∃ b, g.obs = some b ∧ [b.cell 0 0 0, b.cell 0 1 0, b.cell 0 2 0] = [nan, fin 3, fin 5] := by
+  refine ⟨_, rfl, rfl, _, rfl, ?_⟩
+  decide +kernel
+
 /-- **Preservation** (structural): accumulate and window copy name, units, times, lead times and
 location metadata and keep the dimensions of both fields; ens2prob copies the whole input
 (including obs and fcst) next to the requested thresholds and levels; expandverif copies name,
@@ -948,19 +1007,21 @@ theorem C20_preserve :
       ∧ g.obs.T = g.times.length ∧ g.obs.L = oleads.length) := by
   refine ⟨?_, ?_, ?_, ?_⟩
   · intro axis w ign f g h
-    unfold accumulateFile at h
-    split at h
-    · rename_i o fc ho hf
-      split at h
-      · rename_i o' fc' ho' hf'
-        cases h
-        have d1 := C20_accumulate_axis axis w ign o o' ho'
-        have d2 := C20_accumulate_axis axis w ign fc fc' hf'
-        refine ⟨rfl, rfl, rfl, rfl, rfl, rfl, rfl, rfl, ?_, ?_⟩
-        · simp [ho, d1.1, d1.2.1, d1.2.2.1]
-        · simp [hf, d2.1, d2.2.1, d2.2.2.1]
-      · cases h
-    · cases h
+    obtain ⟨ho, hf, rest⟩ := C20_accumulate_file axis w ign f g h
+    refine ⟨rest.1, rest.2.1, rest.2.2.1, rest.2.2.2.1, rest.2.2.2.2.1, rest.2.2.2.2.2.1,
+      rest.2.2.2.2.2.2.1, rest.2.2.2.2.2.2.2, ?_, ?_⟩
+    · cases hfo : f.obs with
+      | none => simp [(ho.1 hfo)]
+      | some a =>
+        obtain ⟨b, hb, hacc⟩ := ho.2 a hfo
+        have d := C20_accumulate_axis axis w ign a b hacc
+        simp [hb, d.1, d.2.1, d.2.2.1]
+    · cases hff : f.fcst with
+      | none => simp [(hf.1 hff)]
+      | some a =>
+        obtain ⟨b, hb, hacc⟩ := hf.2 a hff
+        have d := C20_accumulate_axis axis w ign a b hacc
+        simp [hb, d.1, d.2.1, d.2.2.1]
   · intro I f g h
     unfold windowFile at h
     split at h
